@@ -74,37 +74,58 @@ static int reg_at(const struct vp_table *d, uint32_t a)
 void harness(void)
 {
     VP_INPUT(in);
+#ifdef GA_N
+    vp_apply_geometry(&in.t);
+#endif
     in_g = in;
     const struct vp_table *d = &in.t;
     VP_ASSUME(vp_desc_wellformed(d));
     for (unsigned i = 0; i < NAREA; ++i) {
-        VP_ASSUME(d->a[i].base <= 0x7fffff00u);
+        VP_ASSUME(d->a[i].base <= VP_ADDR_LIMIT);
         VP_ASSUME(d->a[i].has_read == 1);
     }
     for (unsigned i = 0; i < NREG; ++i) {
-        VP_ASSUME(d->e[i].address <= 0x7fffff00u);
+        VP_ASSUME(d->e[i].address <= VP_ADDR_LIMIT);
         VP_ASSUME(in.touched[i] <= 1);
     }
     VP_ASSUME(ref_layout_ok(d));
+#ifdef GA_N
+    VP_ASSUME(vp_geometry_types_ok(d));
+#endif
+    for (unsigned i = 0; i < NAREA; ++i)
+        if (i < d->nareas)
+            VP_ASSUME(d->a[i].size >= 1); /* zero-size areas are outside the claim (see DESIGN.md C02) */
+#ifdef NFIX
+    /* the driver enumerates the block length: one query per n */
+    VP_ASSUME(in.n == NFIX);
+#else
     VP_ASSUME(in.n <= NMAX);
+#endif
 #ifdef ADDR_WINDOW
     VP_ASSUME(in.addr <= 0x7fffff40u);
 #endif
     vp_link_direct(d);
-    memcpy(vp_mem, in.mem, sizeof vp_mem);
+    for (unsigned a = 0; a < NAREA; ++a)
+        for (unsigned w = 0; w < AWORDS; ++w)
+            vp_mem[a][w] = in.mem[a][w];
     for (unsigned i = 0; i < NREG; ++i)
         vp_entries[i].flags = in.touched[i] ? REG_EF_TOUCHED : 0;
     struct vp_snapshot before;
     vp_snap(&before);
 
+#ifdef NFIX
+    const unsigned n = NFIX;
+#else
     const unsigned n = in.n;
+#endif
 #ifdef VP_REPLAY
     RegisterAtom *blk = malloc(n ? n * sizeof(RegisterAtom) : 1);
     memcpy(blk, in.buf + (NMAX - n), n * sizeof(RegisterAtom));
 #else
     /* the caller's buffer ends exactly after n words */
     RegisterAtom arr[NMAX];
-    memcpy(arr, in.buf, sizeof arr);
+    for (unsigned i = 0; i < NMAX; ++i)
+        arr[i] = in.buf[i];
     RegisterAtom *blk = arr + (NMAX - n);
 #endif
 
@@ -114,6 +135,7 @@ void harness(void)
     bool all_mapped = true, all_writeable = true, all_valid = true;
     bool has_ro = false, has_hole = false, has_inv = false, has_rng = false;
     uint32_t first_ro = 0, first_hole = 0, first_inv = 0, first_rng = 0;
+    /* mapping and writability: per request word, in request order */
     for (unsigned i = 0; i < NMAX; ++i) {
         if (i >= n)
             break;
@@ -122,24 +144,36 @@ void harness(void)
         if (ai < 0) {
             all_mapped = false;
             if (!has_hole) { has_hole = true; first_hole = a; }
-            continue;
-        }
-        if (!ref_area_block_writeable(&d->a[ai])) {
+        } else if (!ref_area_block_writeable(&d->a[ai])) {
             all_writeable = false;
             if (!has_ro) { has_ro = true; first_ro = a; }
         }
-        int j = reg_at(d, a);
-        if (j >= 0) {
-            uint8_t o[8];
-            overlay_octets(d, &d->e[j], o);
-            uint64_t bits = ref_decode(o, d->e[j].type, d->bigendian);
-            if (!ref_float_ok(bits, d->e[j].type)) {
-                all_valid = false;
-                if (!has_inv) { has_inv = true; first_inv = a; }
-            } else if (!ref_constraint(d, &d->e[j], bits, false)) {
-                all_valid = false;
-                if (!has_rng) { has_rng = true; first_rng = a; }
-            }
+    }
+    /* decode + constraint: once per overlapped register; the first request
+     * address (in request order) inside register j is addr itself when the
+     * request starts inside j, else j's own address */
+    uint32_t pos_inv = 0xffffffffu, pos_rng = 0xffffffffu;
+    for (unsigned j = 0; j < NREG; ++j) {
+        if (j >= d->nentries)
+            break;
+        const struct vp_entry *e = &d->e[j];
+        uint32_t fa;
+        if (n > 0 && (uint32_t)(in.addr - e->address) < ref_size(e->type))
+            fa = in.addr;
+        else if (in_request(e->address))
+            fa = e->address;
+        else
+            continue;
+        uint8_t o[8];
+        overlay_octets(d, e, o);
+        uint64_t bits = ref_decode(o, e->type, d->bigendian);
+        uint32_t pos = fa - in.addr;
+        if (!ref_float_ok(bits, e->type)) {
+            all_valid = false;
+            if (pos < pos_inv) { pos_inv = pos; has_inv = true; first_inv = fa; }
+        } else if (!ref_constraint(d, e, bits, false)) {
+            all_valid = false;
+            if (pos < pos_rng) { pos_rng = pos; has_rng = true; first_rng = fa; }
         }
     }
     const bool expect = all_mapped && all_writeable && all_valid;
@@ -177,18 +211,33 @@ void harness(void)
         VP_ASSERT(ok_ro || ok_hole || ok_inv || ok_rng, "C02.failure.class-and-first-address");
     }
 
-    /* interesting paths */
+    /* interesting paths (which ones exist depends on the geometry: W_* flags from the driver) */
     int j0 = (n > 0) ? reg_at(d, in.addr) : -1;
-    VP_WITNESS(r.code == REG_ACCESS_SUCCESS && n >= 3 && j0 >= 0 && d->e[j0].address < in.addr &&
-                   ref_size(d->e[j0].type) == 4 && d->e[j0].check == REGV_TYPE_RANGE,
-               "C02.success-starting-inside-64bit-range-register.reach");
-    VP_WITNESS(r.code == REG_ACCESS_SUCCESS && n == NMAX && d->nareas == NAREA &&
-                   ref_area_of(d, in.addr) != ref_area_of(d, in.addr + n - 1),
-               "C02.success-spanning-two-areas.reach");
-    VP_WITNESS(r.code == REG_ACCESS_RANGE && has_rng && first_rng != in.addr, "C02.range-failure-later.reach");
+#if !defined(GA_N) || defined(W_MULTI)
+    VP_WITNESS(r.code == REG_ACCESS_SUCCESS && j0 >= 0 && d->e[j0].address < in.addr &&
+                   d->e[j0].check == REGV_TYPE_RANGE && n >= 2,
+               "C02.success-starting-inside-range-register.reach");
+    VP_WITNESS(r.code == REG_ACCESS_RANGE && j0 >= 0 && d->e[j0].address < in.addr, "C02.range-partial-first.reach");
     VP_WITNESS(r.code == REG_ACCESS_INVALID && has_inv, "C02.invalid-float.reach");
+#endif
+#if !defined(GA_N) || defined(W_W4)
+    VP_WITNESS(r.code == REG_ACCESS_SUCCESS && j0 >= 0 && d->e[j0].address < in.addr &&
+                   in.addr + n < d->e[j0].address + ref_size(d->e[j0].type) && d->e[j0].check == REGV_TYPE_MIN,
+               "C02.success-embedded-in-one-register.reach");
+#endif
+#if !defined(GA_N) || defined(W_ADJ)
+    VP_WITNESS(r.code == REG_ACCESS_SUCCESS && ref_area_of(d, in.addr) != ref_area_of(d, in.addr + n - 1),
+               "C02.success-spanning-two-areas.reach");
+#endif
+#if !defined(GA_N) || defined(W_REGS)
+    VP_WITNESS(r.code == REG_ACCESS_RANGE && has_rng && d->bigendian, "C02.range-failure-bigendian.reach");
+#endif
     VP_WITNESS(r.code == REG_ACCESS_READONLY && has_ro && first_ro != in.addr, "C02.readonly-later.reach");
     VP_WITNESS(r.code == REG_ACCESS_NOENTRY && has_hole && first_hole != in.addr, "C02.hole-later.reach");
+    VP_WITNESS(r.code == REG_ACCESS_SUCCESS && n == 0 && ref_area_of(d, in.addr) < 0, "C02.zero-length-in-hole.reach");
+#ifdef W_MAXRUN
+    VP_WITNESS(r.code == REG_ACCESS_SUCCESS && n == (W_MAXRUN < NMAX ? W_MAXRUN : NMAX), "C02.success-longest-block.reach");
+#endif
 #ifdef VP_REPLAY
     free(blk);
 #endif
